@@ -36,6 +36,35 @@ from vcheck import Case, hx, flist, ilist, parse_vals, compare_lines, run_exe, t
 import vbuild
 
 PID = "C07"
+COQ = os.path.join(os.path.dirname(os.path.dirname(os.path.abspath(__file__))), "coq")
+
+
+def gen_functions():
+    """T-tie: the straight-line functions of src/Statistics.cpp that are regenerated from clang's AST on every run
+    (coq/Gen_C07_Formulas.v) and proved equal to the hand model in coq/C07_GenTie.v"""
+    import cxx2gallina as c
+    F, E, d = c.Fn, c.Ext, "double"
+    fns = [F("PDF_Uniform", [d] * 3, "g_PDF_Uniform"), F("CDF_Uniform", [d] * 3, "g_CDF_Uniform"),
+           F("PDF_Gauss", [d] * 3, "g_PDF_Gauss"), F("CDF_Gauss", [d] * 3, "g_CDF_Gauss"), F("Quantile_Gauss", [d] * 3, "g_Quantile_Gauss"),
+           F("PMF_Binomial", ["uint", d, "uint"], "g_PMF_Binomial"),
+           F("CDF_Poisson", [d, "uint"], "g_CDF_Poisson"), F("Inv_CDF_Poisson", ["uint", d], "g_Inv_CDF_Poisson"),
+           F("PDF_Chi_Square", [d] * 2, "g_PDF_Chi_Square"), F("CDF_Chi_Square", [d] * 2, "g_CDF_Chi_Square"),
+           F("PDF_Exponential", [d] * 2, "g_PDF_Exponential"), F("CDF_Exponential", [d] * 2, "g_CDF_Exponential"),
+           F("PDF_Maxwell_Boltzmann", [d] * 2, "g_PDF_Maxwell_Boltzmann"), F("CDF_Maxwell_Boltzmann", [d] * 2, "g_CDF_Maxwell_Boltzmann")]
+    exts = [E("GammaQ", [d, d], "gammaQ"), E("GammaP", [d, d], "gammaP"), E("Inv_GammaQ", [d, d], "inv_gammaQ"),
+            E("GammaLn", [d], "gammaLn"), E("Inv_Erf", [d], "inv_erf"), E("Binomial_Coefficient", ["int", "int"], "binom")]
+    return fns, exts
+
+
+def regenerate():
+    import cxx2gallina as c
+    fns, exts = gen_functions()
+    try:
+        txt = c.translate_all(os.path.join(vbuild.REPO, "src", "Statistics.cpp"), fns, [os.path.join(vbuild.REPO, "include")], exts, True)
+    except c.Unsupported as e:
+        raise RuntimeError(f"tools/cxx2gallina.py cannot translate src/Statistics.cpp: {e}")
+    ch = c.write_if_changed(os.path.join(COQ, "Gen_C07_Formulas.v"), txt)
+    return "Gen_C07_Formulas.v regenerated from the current source" if ch else ""
 EPS = 2.0 ** -53
 RULE = ("a case counts as non-trivial if one of its arguments lies on a support boundary (x = x_min, x_max, 0, k = trials, mean 0) or in a tail "
         "(CDF < 1e-6 or > 1-1e-6), or the degrees of freedom / Poisson mean / trials are in the top decade of the property's range "
